@@ -33,6 +33,12 @@ func Arithm(cfg *Config, expr syntax.ArithmExpr) (int, error) {
 			}
 			str = val
 		}
+		if i > 0 && !arithmNumberLike(str) {
+			// Like Bash, the value of a variable which is neither a name
+			// nor a number is evaluated as an arithmetic expression,
+			// for example x="1+2" or x="y*2".
+			return cfg.arithmValue(str)
+		}
 		// default to 0
 		return int(atoi(str)), nil
 	case *syntax.ParenArithm:
@@ -131,6 +137,43 @@ func Arithm(cfg *Config, expr syntax.ArithmExpr) (int, error) {
 	default:
 		panic(fmt.Sprintf("unexpected arithm expr: %T", expr))
 	}
+}
+
+// arithmValue evaluates the value of a variable as an arithmetic expression.
+// The nesting is limited, as a value may refer to its own variable.
+func (cfg *Config) arithmValue(val string) (int, error) {
+	if cfg.arithmDepth >= maxNameRefDepth {
+		return 0, fmt.Errorf("expression recursion level exceeded")
+	}
+	expr, err := syntax.NewParser().Arithmetic(strings.NewReader(val))
+	if err != nil {
+		return 0, fmt.Errorf("syntax error in expression: %q", val)
+	}
+	if expr == nil { // e.g. only whitespace
+		return 0, nil
+	}
+	cfg.arithmDepth++
+	defer func() { cfg.arithmDepth-- }()
+	return Arithm(cfg, expr)
+}
+
+// arithmNumberLike reports whether s is empty or would be read by Bash
+// as a name or as a single integer constant with an optional sign,
+// as opposed to an expression with operators.
+func arithmNumberLike(s string) bool {
+	s = strings.TrimSpace(s)
+	if s != "" && (s[0] == '+' || s[0] == '-') {
+		s = s[1:]
+	}
+	for i := range len(s) {
+		switch c := s[i]; {
+		case c >= '0' && c <= '9', c >= 'a' && c <= 'z', c >= 'A' && c <= 'Z':
+		case c == '#', c == '@', c == '_':
+		default:
+			return false
+		}
+	}
+	return true
 }
 
 func oneIf(b bool) int {
